@@ -45,7 +45,7 @@ def names():
             if k:
                 out.append("a" * (L - k * w) + CH[w] * k)
                 out.append(CH[w] + "a" * (L - w))
-    out += ["My Switcher Boiler", "Switcher Breeze_5679", "בוילר ראשי", "café", "x", "a b", "Tab\there"]
+    out += ["\ufeffPorch plug", "\ufeff", "a\ufeff", "\u200fBoiler", "Boiler\u200e", "\u200b", "\ufffeX", "\x7f\x01", "My Switcher Boiler", "Switcher Breeze_5679", "בוילר ראשי", "café", "x", "a b", "Tab\there"]
     seen, res = set(), []
     for n in out:
         if n not in seen and 0 < len(n.encode()) <= 32:
